@@ -159,6 +159,9 @@ def make_label(style):
         return lambda k: float(k) + 0.5
     if style == "negint":
         return lambda k: -int(k) * 3 - 1
+    if style == "mixed":
+        # one arm list mixing the three label types (numpy would turn a list of such decisions into strings)
+        return lambda k: int(k) if int(k) % 3 == 0 else ("arm%d" % k if int(k) % 3 == 1 else float(k) + 0.5)
     raise ValueError(style)
 
 # ------------------------------------------------------------------ binarizers (same codes as driver/main.ml)
@@ -316,7 +319,13 @@ def apply_op(mab, o, label, inv, case):
             rs = list(o[2])
             cx = to_ctx(o[3])
             if case.get("np_inputs", True):
-                ds = np.asarray(ds); rs = np.asarray(rs, dtype=float)
+                if case.get("label") == "mixed":
+                    # labels of several types: a plain list, or an object array (numpy's default conversion of such a list is the
+                    # caller's business: it would hand the library an all-string array)
+                    ds = np.asarray(ds, dtype=object) if len(ds) % 2 else ds
+                else:
+                    ds = np.asarray(ds)
+                rs = np.asarray(rs, dtype=float)
                 cx = None if cx is None else np.asarray(cx, dtype=float)
                 # integer-typed training contexts (count features): same values, another dtype of the stored history
                 if cx is not None and case.get("int_ctx") and cx.size and np.all(cx == np.round(cx)):
